@@ -40,14 +40,16 @@ type capLogger struct {
 }
 
 func (l *capLogger) add(level, f string, a ...interface{}) {
+	// format first, lock afterwards: an argument whose String() never returns must wedge its own caller only
+	recs := []string{f}
+	for _, x := range a {
+		recs = append(recs, fmt.Sprintf("%v", x), fmt.Sprintf("%+v", x), fmt.Sprintf("%q", x))
+	}
+	text := fmt.Sprintf(f, a...)
 	l.mu.Lock()
 	defer l.mu.Unlock()
-	l.recs = append(l.recs, f)
-	for _, x := range a {
-		l.recs = append(l.recs, fmt.Sprintf("%v", x), fmt.Sprintf("%+v", x), fmt.Sprintf("%q", x))
-	}
-	l.recs = append(l.recs, fmt.Sprintf(f, a...))
-	l.text = append(l.text, level+" "+fmt.Sprintf(f, a...))
+	l.recs = append(append(l.recs, recs...), text)
+	l.text = append(l.text, level+" "+text)
 }
 func (l *capLogger) Debug(f string, a ...interface{}) { l.add("D", f, a...) }
 func (l *capLogger) Info(f string, a ...interface{})  { l.add("I", f, a...) }
